@@ -298,15 +298,25 @@ class CustomFootnoteDef(footnote.FootnoteDef):
     then never matches; the parser stops consuming input and loops forever.
     """
 
-    def __init__(self, match: re.Match[str]) -> None:
-        super().__init__(match)
-        # Tab stops count from the start of the line, not from the start of the match (the
-        # definition may sit inside a quote or list item).
+    @override
+    @classmethod
+    def parse(cls, source: Source) -> CustomFootnoteDef:
+        match = source.match
+        assert match is not None
+        state = cls(match)
+        # Tab stops count from the start of the line, and the prefix of the enclosing containers
+        # (a quote, a list item) may end in the middle of a tab: our prefix is what lies between
+        # the end of their match and the end of ours on the tab-expanded line.
         text = match.string
         line_start = text.rfind("\n", 0, match.start()) + 1
-        before = text[line_start : match.start()].expandtabs(4)
         upto = text[line_start : match.end()].expandtabs(4)
-        self._prefix: str = re.escape(upto[len(before) :])
+        outer = re.match(source.prefix, upto)
+        before = outer.end() if outer else len(text[line_start : match.start()].expandtabs(4))
+        state._prefix = re.escape(upto[before:])
+        with source.under_state(state):
+            state.children = source.parser.parse_source(source)
+        source.root.footnotes[state.label] = state
+        return state
 
     @override
     @classmethod
